@@ -5,6 +5,19 @@
     [CDec] per call; [check] re-runs the model of that decoder. *)
 From CSS Require Import Lib.Base Lib.Cases Model.Decoders.
 From CSS Require Model.EventLog.
+From Coq Require Import Uint63.
+
+(** byte strings are written by the harness packed seven bytes per primitive
+    63-bit integer, little endian ([pk 9 [0x07060504030201; 0x0908]] =
+    [1;2;3;4;5;6;7;8;9]): the kernel checks one node per seven bytes instead of
+    a numeral per byte *)
+Fixpoint unpk (k : nat) (z : Z) : list Z :=
+  match k with O => [] | S k' => (z mod 256) :: unpk k' (z / 256) end.
+Fixpoint pk (n : Z) (ws : list int) : list Z :=
+  match ws with
+  | [] => []
+  | w :: t => if n <=? 7 then unpk (Z.to_nat n) (to_Z w) else unpk 7 (to_Z w) ++ pk (n - 7) t
+  end.
 
 (** what the implementation did *)
 Inductive dobs : Type :=
@@ -75,7 +88,7 @@ Definition model (d : Z) (aux i1 i2 : list Z) : res (list Z) :=
   else if d =? D_SYSFS_PCRS then run (parse_sysfs_pcrs i1) i1
   else if d =? D_LOCAL_CAPS then run (local_caps i1) i1
   else if d =? D_BYTES_RANGE then run (bytes_range (aux_at aux 0) (aux_at aux 1) (aux_at aux 2)) i1
-  else if d =? D_DECRYPT_FRAME then run (decrypt_frame (nz (aux_at aux 0)) i1) i1
+  else if d =? D_DECRYPT_FRAME then run (decrypt_frame (match i2 with [] => false | _ => true end) i1) i1
   else if d =? D_JSON_REGS then run (parse_registers (S (length i1)) i1 []) []
   else RFuel.
 
